@@ -551,6 +551,12 @@ fn run_op_inner(st: &mut State, op: &Op) -> Obs {
             }
             Obs { ok: true, ..Default::default() }
         }
+        (_, "seteuid") => {
+            // change the effective (and with it the filesystem) uid of the running process, keeping the saved uid
+            let r = unsafe { libc::seteuid(op.num.unwrap_or(0) as libc::uid_t) };
+            if r != 0 { return harness_err(format!("seteuid failed: {}", std::io::Error::last_os_error())); }
+            Obs { ok: true, ..Default::default() }
+        }
         (_, "close_stdin") => { unsafe { libc::close(0) }; Obs { ok: true, ..Default::default() } }
         (_, "getpid") => Obs { ok: true, ret: Some(unsafe { libc::getpid() } as i64), ..Default::default() },
         (_, "fdtable") => Obs { ok: true, fds_after: fd_table(), ..Default::default() },
